@@ -254,6 +254,9 @@ impl<Key> AdmissionPolicy<Key>
     pub(crate) fn verif_charged(&self) -> Vec<(KeyId, Key, KeyHash, Weight)> { self.cache_weight.verif_entries() }
 
     pub(crate) fn verif_access_queue_len(&self) -> usize { self.sender.len() }
+
+    /// Position inside the current ageing window: access records applied to the sketch since its last reset.
+    pub(crate) fn verif_sketch_total_increments(&self) -> u64 { self.access_frequency.read().verif_total_increments() }
 }
 
 impl<Key> BufferConsumer for AdmissionPolicy<Key>
